@@ -170,8 +170,8 @@ Effects(s, cx) ==
   \cup (IF E("zombie") /\ cx.k = "top" THEN {[op |-> "zombie", aid |-> a] : a \in ActorsOf(s)} ELSE {})
 
 SubEv(q, c) ==
-  IF c.k = "call" THEN [e |-> "sub", q |-> q, item |-> c.id, aid |-> c.aid, prep |-> c.prep]
-  ELSE [e |-> "sub", q |-> q, item |-> c.id]
+  IF c.k = "call" THEN [e |-> "sub", q |-> q, item |-> c.id, aid |-> c.aid, prep |-> c.prep, hr |-> SetToSeq(c.hr)]
+  ELSE [e |-> "sub", q |-> q, item |-> c.id, hr |-> << >>]
 
 ItemRef(id) == [id |-> id]
 
@@ -399,7 +399,11 @@ ExecMain ==
      THEN Commit([d EXCEPT !.altMain = d.deferQ, !.deferQ = << >>], -1, << >>, "")
      ELSE IF d.lazyQ # << >>
      THEN Commit([d EXCEPT !.altLazy = d.lazyQ, !.lazyQ = << >>, !.pc = "lazy"], -1, << >>, "")
-     ELSE Commit(Emit([d EXCEPT !.pc = "top"], [e |-> "runend", ret |-> d.idleQ # << >>, now |-> T(d.now)]), -1, << >>, "")
+     ELSE \* run returns; the harness then reads is_zombie() of every actor
+          LET s1 == Emit([d EXCEPT !.pc = "top"], [e |-> "runend", ret |-> d.idleQ # << >>, now |-> T(d.now)])
+              as == SetToSortSeq(DOMAIN d.actors, <)
+              s2 == FoldSeq(LAMBDA a, acc : Emit(acc, [e |-> "zombie", aid |-> a, res |-> d.actors[a].bits = "zombie"]), s1, as)
+          IN Commit(s2, -1, << >>, "")
 
 ExecLazy ==
   /\ d.pc = "lazy"
